@@ -443,6 +443,7 @@ def _try_inline(caller, st, cands, counter):
     tag = "__%s%d" % (helper.name.lstrip("_"), counter[0])
     stored = {x.id for x in ast.walk(helper.node) if isinstance(x, ast.Name) and isinstance(x.ctx, (ast.Store, ast.Del))}
     stored |= {x.name for x in ast.walk(helper.node) if isinstance(x, ast.FunctionDef) and x is not helper.node}
+    stored |= {x.id for b_ in body for x in ast.walk(b_) if isinstance(x, ast.Name) and isinstance(x.ctx, (ast.Store, ast.Del))}   # result variable of a structured body
     for x in ast.walk(helper.node):
         if isinstance(x, (ast.FunctionDef, ast.Lambda)) and x is not helper.node:
             ia = x.args
@@ -479,9 +480,9 @@ def _try_inline(caller, st, cands, counter):
                 and all(isinstance(x, ast.Name) for x in tg.elts + rv.elts) and len({x.id for x in rv.elts}) == len(rv.elts):
             pairs = [(r.id, t.id) for r, t in zip(rv.elts, tg.elts)]
         if pairs is not None:
-            helper_names = {x.id for x in ast.walk(helper.node) if isinstance(x, ast.Name)}
+            helper_names = {x.id for x in ast.walk(helper.node) if isinstance(x, ast.Name)} | {x.id for b_ in body for x in ast.walk(b_) if isinstance(x, ast.Name)}
             arg_names = {x.id for a_ in bound.values() for x in ast.walk(a_) if isinstance(x, ast.Name)}
-            if all(r in stored and r not in bound and (t not in helper_names or t == r) and t not in arg_names for (r, t) in pairs):
+            if all(r in stored and r not in bound and (t not in helper_names or t == r or (t in stored and t not in bound)) and t not in arg_names for (r, t) in pairs):
                 for (r, t) in pairs:
                     names[r] = t
                 direct = True
@@ -508,3 +509,33 @@ def _try_inline(caller, st, cands, counter):
     for s in new:
         ast.fix_missing_locations(s)
     return new, helper
+
+
+def expand_value_calls(prog, fi, expr):
+    """A copy of the expression `expr` (of function fi) in which every call `self.m(...)` of a method that only decides a value
+    (`[if c: return v]*; return w`, see _as_expression) and has exactly one implementation reachable from fi's class is replaced by
+    that value with the arguments substituted.  Used by rules that ask "what is added here" when a public helper stands in between."""
+    if fi.cls is None:
+        return expr
+
+    class _E(ast.NodeTransformer):
+        def visit_Call(self, node):
+            self.generic_visit(node)
+            f = node.func
+            if isinstance(f, ast.Attribute) and isinstance(f.value, ast.Name) and f.value.id == fi.self_name:
+                tgts = prog.dynamic_targets(fi.cls, f.attr)
+                if len(tgts) == 1 and tgts[0] is not fi:
+                    h = tgts[0]
+                    e = _as_expression(h.node)
+                    bound = _bind(h, node) if e is not None else None
+                    if bound is not None:
+                        uses = {}
+                        for x in ast.walk(e):
+                            if isinstance(x, ast.Name) and x.id in bound:
+                                uses[x.id] = uses.get(x.id, 0) + 1
+                        names = {}
+                        if h.self_name is not None and h.self_name != fi.self_name:
+                            names[h.self_name] = fi.self_name
+                        return ast.copy_location(_Subst(names, bound).visit(_clone(e)), node)
+            return node
+    return _E().visit(_clone(expr))
